@@ -26,11 +26,24 @@ without volume weighting: femio has no hex2 volume) meshes whose corner and mid-
 The graph vertices are the corner nodes in storage order (own computation from the connectivity, not femio's filter);
 fields are given on ALL nodes, as the convenience function expects them; the explicit matrices are applied by hand to
 the corner rows.  The model is fed the first-order sub-problem (corner nodes, corner connectivity).
+Dimension `graded` of the main stream (round 4, class J): every second mesh has cell widths differing by 3 .. 1000 WITHIN the mesh
+(geometric progressions towards a corner / an inner layer along all or some axes, thin layers, jitter proportional to the local
+cell size, sheared); on those the moment-corrected volume-weighted operator of both modes is evaluated in addition (weights differ
+by ratio^3, moment determinants by ratio^9 between the coarse and the fine region; `C15_row_weight_scale`: the operator row of a
+vertex does not depend on the common factor of its weights, so no threshold on the SIZE of det M_i is sound).  Exactness is
+asserted at EVERY vertex with the tolerance derived from the harness's own cond(M_i).
+Dimension `data array` (class F): the field is handed to the convenience functions as int8..int64 / uint8..uint64 / bool / float16 /
+float32 / byte-swapped arrays, C / Fortran ordered, transposed, strided, reversed, read-only, of shape (n, k), (n, 1), (n,); the
+field IS what the array holds (converted to binary64) and the explicit matrices applied to it by hand are the reference; affine
+fields are made integer-valued beforehand so that they survive the cast (`C15_integer_affine_field`).  Dimension `mesh storage`:
+the arrays the object is built from (ids / connectivity int32, uint32, uint64; coordinates Fortran-ordered, strided, byte-swapped,
+integer-typed when integer-valued).
 Stream `translated`: meshes 1e3 .. 1e7 element sizes away from the origin (what an exact-rational model cannot see:
 formulas in absolute positions are equal over Q and cancel in binary64), with the metamorphic relation operator(translated
 mesh) = operator(mesh before the translation) (`C15_translation_invariant`).
 """
 import itertools
+import math
 from fractions import Fraction as F
 
 import numpy as np
@@ -41,7 +54,7 @@ from . import meshgen as MG
 PROP = 'C15'
 LEAN_MODULES = ['Femio.Props.C15']
 THEOREMS = ['C15_const_zero', 'C15_affine_exact', 'C15_convenience', 'det3_eq_det', 'C15_translation_invariant',
-            'C15_moment_expanded']
+            'C15_moment_expanded', 'C15_row_weight_scale', 'C15_integer_affine_field']
 PARTIAL = ['the weights w_ij (distance kernel exp / gauss x effective or mean volume) are inputs of the model, read back from '
            'the real call; the theorems hold for every weight function, so nothing about exp is needed',
            'floating point (np.linalg.inv, sqrt, cancellation) is runtime: the theorems are identities over a field; the exact '
@@ -50,7 +63,14 @@ PARTIAL = ['the weights w_ij (distance kernel exp / gauss x effective or mean vo
            'that formulas in absolute positions are EQUAL to the modelled ones over Q: their loss of precision far from the '
            'origin is seen by the oracle (stream translated) only, never by the exact model',
            'history independence (a call does not depend on earlier calls on the same object) is not a theorem: the model is a '
-           'pure function; it is checked on the real code by the live sequences (comparison with freshly built objects)']
+           'pure function; it is checked on the real code by the live sequences (comparison with freshly built objects)',
+           'dtype / memory layout of the arrays handed in are not modelled (the model computes over a field): C15_integer_affine_field '
+           'says that over Q an integer-typed output array loses nothing on integer-valued affine fields (why the exact model is blind '
+           'to it there); the conversion of the result to the dtype of the input is seen by the oracle only (dimension data array)',
+           'graded meshes: C15_row_weight_scale (operator rows are invariant under a common factor of the weights of a vertex, det M_i '
+           'is not) is an identity over a field; a numerical threshold on det M_i relative to other vertices is seen by the oracle only. '
+           'In the quick tier the exact model is skipped on graded meshes with more than 800 and on translated meshes with more than '
+           '1500 neighbour pairs (long rationals, 1-2 ms per pair); the oracle runs on all of them']
 RULE = ('conforming tet / hex bricks (1..2 or 1..3 cells per direction, optional voids) under a random rational affine '
         'map (sheared / graded) with optional per-node jitter, arbitrary node / element ids in ascending / descending / '
         'shuffled / looks-sorted storage order; 4 option combinations per mesh drawn without replacement from mode (nodal, '
@@ -66,6 +86,23 @@ RULE = ('conforming tet / hex bricks (1..2 or 1..3 cells per direction, optional
         'freshly built equal object = exact model, data array and user data (ids, coordinates, connectivity, a nodal and an '
         'elemental variable) unchanged. With the normals option only constants -> 0, convenience = matrices and equality with a '
         'fresh object are asserted. '
+        'Dimension graded (main stream): every second mesh is a brick of 2..3 (thorough: ..4) cells per direction (tets: one '
+        'direction may have a single cell) whose cell widths form geometric progressions with largest / smallest = 3, 10, 30, 100, 300, '
+        '1000 (every ratio in every run): three times out of four along all three axes (down / up / fine in the middle), otherwise '
+        'per-axis patterns incl. uniform and thin (all cells anisotropic by the ratio); jitter up to 1/8 of the smallest adjacent cell '
+        'width, random rational affine map, ids / storage orders as everywhere; coordinates dyadic (exact in binary64). On a graded '
+        'mesh 4 further option combinations: moment matrix + volume weighting for nodal / elemental x (1 hop: oracle + model + '
+        'sequence; 2 or 3 hops: oracle only). Affine exactness asserted at every vertex whose neighbourhood spans space (exact rank). '
+        'Dimension data array (every stream): with probability 0.6 the field is handed to the convenience function as dtype (int8, '
+        'int16, int32, int64, uint8, uint16, uint32, uint64, bool, float16, float32, >f8, >f4, >i4, float64) x layout (C, Fortran, '
+        'transposed view, every second column / row of a larger array, negative stride, read-only) x shape ((n, k), (n, 1), (n,)); '
+        'values are rounded / saturated into the dtype BEFORE the call, so the array holds the field exactly and the reference is '
+        'the explicit matrices applied by hand to its binary64 conversion; constants stay constants; affine fields are replaced by '
+        'integer-valued ones (slope = small integers x common denominator of the exact vertex positions, offset centring the range) '
+        'and count as affine only if the cast is lossless; the live sequences change the array kind between calls as one more '
+        '"keyword"; the array and the memory it views are compared bit for bit after the call. A 1-D result may be (n, 3) or (n, 3, 1). '
+        'Dimension mesh storage (main stream, 40 % of the meshes): ids / connectivity as int32 / uint32 / uint64, coordinates '
+        'Fortran-ordered / strided / byte-swapped / integer-typed (only when integer-valued). '
         'A case is non-trivial when the graph has at least '
         'one vertex with >= 3 neighbours; distinct = distinct (mesh, options) resp. (mesh, sequence of calls). Vertices whose '
         'neighbourhood does not span space (exact rank < 3) are outside the exactness clause and are counted in a separate stream. '
@@ -115,6 +152,15 @@ ASSUMPTIONS = [
     'never a failure',
     'every vertex belongs to an element, volumes and kernel values are positive, vertices are distinct '
     '(guards reported by the driver for every case)',
+    'data array: an integer / bool / float16 / float32 / byte-swapped array IS the field (its values converted to binary64); the '
+    'expected result of the convenience functions is the explicit matrices applied by hand to that binary64 field (scipy promotes '
+    'every one of these dtypes to binary64), within 1e-12 row scale x field scale as for binary64 arrays. A 1-D array (n,) is not '
+    'what the docstring asks for ((n, n_feature)): its result may be (n, 3) or (n, 3, 1), an exception on it is an observation and '
+    'the column is then handed in as (n, 1). Not drawn: longdouble (scipy computes in extended precision: 1e-14 differences), '
+    'complex, object arrays',
+    'mesh storage: not drawn: float32 coordinate arrays (femio averages the element centres in float32: accuracy 1e-7 of the '
+    "caller's own storage type, not asserted against the binary64 tolerance) and byte-swapped id arrays (pandas raises "
+    '"Big-endian buffer not supported" inside ids2indices)',
     'live sequences: a call that changes the data array it is given or the user data of the object (ids, coordinates, '
     'connectivity, user variables) changes the field / the mesh the three clauses are stated for, and is reported',
 ]
@@ -295,7 +341,9 @@ def semkey(opt):
     return (opt['mode'], opt['n_hop'], opt['kernel'], bool(opt['moment']), bool(opt['consider_volume']),
             bool(opt['effective']) if opt['mode'] == 'nodal' and opt['consider_volume'] else None,
             opt['alpha'] if opt['kernel'] is not None else None, bool(opt.get('order1')),
-            (True if nv is True else tuple(nv)) if semantic_normals(opt) else None, opt.get('scale'))
+            (True if nv is True else tuple(nv)) if semantic_normals(opt) else None, opt.get('scale'),
+            tuple(sorted(opt['data_as'].items())) if opt.get('data_as') else None,
+            tuple(sorted(opt['storage'].items())) if opt.get('storage') else None)
 
 
 def dense3(g):
@@ -386,8 +434,52 @@ def min_spread(fd, m, opt, adj):
     return worst
 
 
-def fresh(m):
-    fd = MG.to_femio(m)
+# how the MESH is stored in the arrays the object is built from (round-4 class F): dtype of the id arrays and of the
+# connectivity, dtype / memory layout of the coordinate array.  The mesh is the same mesh; only exact representations are drawn
+ID_DTYPES = ['int32', 'uint32', 'uint64', 'int64']          # (byte-swapped ids: pandas raises 'Big-endian buffer not supported' in ids2indices - not drawn)
+COORD_LAYOUTS = ['C', 'F', 'cols', 'rows']
+
+
+def gen_storage(rnd, m):
+    """None (as before: int64 ids, C-ordered binary64 coordinates) or a JSON-able dict; integer coordinate arrays only
+    when every coordinate is an integer"""
+    if rnd.random() < .6:
+        return None
+    big = max(max(i for i, _ in m['nodes']), max(e for b in m['blocks'].values() for e, _ in b))
+    idt = rnd.choice([d for d in ID_DTYPES if big < 2 ** 31 or d not in ('int32',)])
+    xs = [x for _, p in m['nodes'] for x in p]
+    cdt = ['float64', 'float64', '>f8']
+    if all(x.denominator == 1 for x in xs):
+        cdt += ['int64', 'int32', 'int16']
+    # (float32 coordinate arrays are not drawn: femio then averages the element centres in float32, so the elemental operator
+    # has float32 accuracy (1e-7) even when every coordinate is exactly representable - the precision of the caller's own
+    # storage type, not asserted against the binary64 tolerance)
+    return {'ids': idt, 'connectivity': rnd.choice([idt, 'int64']), 'coordinates': rnd.choice(cdt), 'layout': rnd.choice(COORD_LAYOUTS)}
+
+
+def build_stored(m, st):
+    from femio import FEMData, FEMAttribute, FEMElementalAttribute
+    X = np.array([[float(v) for v in p] for _, p in m['nodes']]).astype(st['coordinates'])
+    n = len(X)
+    if st['layout'] == 'F':
+        X = np.asfortranarray(X)
+    elif st['layout'] == 'cols':
+        w = np.full((n, 6), 77, dtype=X.dtype)
+        w[:, ::2] = X
+        X = w[:, ::2]
+    elif st['layout'] == 'rows':
+        w = np.full((2 * n, 3), 77, dtype=X.dtype)
+        w[::2] = X
+        X = w[::2]
+    nodes = FEMAttribute('NODE', ids=np.array([i for i, _ in m['nodes']]).astype(st['ids']), data=X, silent=True)
+    el = {t: FEMAttribute(t, ids=np.array([e for e, _ in b]).astype(st['ids']),
+                          data=np.array([c for _, c in b]).astype(st['connectivity']), silent=True)
+          for t, b in m['blocks'].items()}
+    return MG.quiet(lambda: FEMData(nodes=nodes, elements=FEMElementalAttribute('ELEMENT', MG.insertion_order(el))))
+
+
+def fresh(m, storage=None):
+    fd = build_stored(m, storage) if storage else MG.to_femio(m)
     for name in ('calculate_n_hop_adj', 'calculate_incidence_matrix', 'calculate_adjacency_matrix_node',
                  'calculate_adjacency_matrix_element'):
         f = getattr(type(fd), name, None)
@@ -400,6 +492,8 @@ def fresh(m):
 
 EPS = 2.0 ** -52
 MODEL_MAX_PAIRS = 6000
+MODEL_MAX_PAIRS_GRADED = 800
+MODEL_MAX_PAIRS_TRANSLATED = 1500
 CTOL = 1e3            # the modest constant C of the conditioning-derived tolerances (calibration: ASSUMPTIONS)
 _GEO = {}
 
@@ -480,6 +574,143 @@ def hex_volume_weights(m, opt):
     return bool(opt['consider_volume']) and any(t.startswith('hex') for t in m['blocks'])
 
 
+# ------------------------------------------------------------------ the field as the ARRAY the caller hands in (round-4 class F)
+
+# dtype of the array given to the convenience functions.  The field IS what the array holds: its values converted to binary64
+# are the field the three clauses are stated for; "the explicit matrices applied by hand" (scipy promotes every one of these
+# dtypes to binary64) is the reference for the convenience functions.  '>' = byte-swapped (non-native) storage.
+DATA_DTYPES = ['int8', 'int16', 'int32', 'int64', 'uint8', 'uint16', 'uint32', 'uint64', 'bool', 'float16', 'float32',
+               '>f8', '>f4', '>i4', 'float64']
+# memory layout: C-ordered / Fortran-ordered / transposed view of a C array / every second column resp. row of a wider
+# (taller) array whose other entries are garbage / negative row stride / read-only
+DATA_LAYOUTS = ['C', 'F', 'T', 'cols', 'rows', 'reversed', 'readonly']
+# shape: all columns (n, k) / one column (n, 1) / one column as a 1-D array (n,): the docstring says (n, n_feature), a
+# scalar field as a 1-D array is what users write; accepted results: (n, 3) or (n, 3, 1); an exception there is an
+# observation, never a failure (then the column is handed in as (n, 1))
+DATA_SHAPES = ['nk', 'nk', 'n1', '1d']
+
+
+def gen_data_as(rnd, p_default=.4):
+    """how the field is handed to the convenience function: None = as before (binary64, C-ordered, (n, k)), else a
+    JSON-able dict dtype x layout x shape (+ which column for the one-column shapes)"""
+    if rnd.random() < p_default:
+        return None
+    shape = rnd.choice(DATA_SHAPES)
+    return {'dtype': rnd.choice(DATA_DTYPES), 'layout': rnd.choice(DATA_LAYOUTS if shape != '1d' else ['C', 'rows', 'reversed', 'readonly']),
+            'shape': shape, 'column': rnd.choice([0, 1, 1, 1, 2, 3])}
+
+
+def _lcm_den(ps):
+    """common denominator of exact positions (stops growing beyond 2^60: no integer-valued field is attempted then)"""
+    d = 1
+    for p in ps:
+        for x in p:
+            q = F(x).denominator
+            d = d * q // math.gcd(d, q)
+            if d >= 2 ** 60:
+                return d
+    return d
+
+
+def conv_any(fd, opt, data, nv, notes):
+    """the convenience function on `data`; a 1-D array (a scalar field as users write it; the docstring asks for (n, k)) may
+    come back as (n, 3) or (n, 3, 1); an exception on it is an observation and the column is handed in as (n, 1) instead"""
+    if data.ndim != 1:
+        return conv_call(fd, opt, data, nv)
+    try:
+        r = conv_call(fd, opt, data, nv)
+    except Exception as e:
+        notes['one_dimensional_data_raised'] = type(e).__name__
+        return conv_call(fd, opt, data[:, None], nv)
+    return r[:, :, None] if getattr(r, 'ndim', 0) == 2 else r
+
+
+def _cast(values, dtype):
+    """the values as an array of `dtype` (round to nearest, saturating: well defined for every dtype)"""
+    dt = np.dtype(dtype)
+    if dt.kind == 'b':
+        return values != 0
+    if dt.kind in 'iu':
+        info = np.iinfo(dt)
+        lo, hi = max(info.min, -2 ** 62), min(info.max, 2 ** 62)
+        return np.clip(np.rint(values), lo, hi).astype(dt)
+    if dt.kind == 'f' and dt.itemsize == 2:
+        return np.clip(values, -60000., 60000.).astype(dt)
+    return values.astype(dt)
+
+
+def present(m, opt, fields, values):
+    """(fields', pristine, data, guard): `data` = the array handed to the convenience function according to opt['data_as'],
+    `pristine` = the field it holds, as binary64 (the field the clauses are stated for and the explicit matrices are applied
+    to by hand), fields' = what is known about every column of `pristine`: a constant stays a constant under every cast; an
+    affine field handed in as an integer / narrow float array is replaced beforehand by an INTEGER-VALUED affine field
+    (slope = small integers x the common denominator of the exact vertex positions, offset centring the values in the
+    range of the dtype; evaluated over the rationals), and stays 'affine' only if the cast is lossless - otherwise the
+    column is an arbitrary field (clause convenience = matrices only).  `guard` = (array owning the memory, its bytes)"""
+    spec = opt.get('data_as')
+    if not spec:
+        return fields, values, values.copy(), None
+    dt = np.dtype(spec['dtype'])
+    fields = [dict(f) for f in fields]          # (the columns beyond them are arbitrary fields: clause convenience = matrices)
+    values = values.copy()
+    n_named = len(fields)
+    if spec['shape'] != 'nk':
+        c = spec['column'] % n_named
+        fields, values = [fields[c]], values[:, [c]]
+    narrow = not (dt.kind == 'f' and dt.itemsize >= 8)
+    if narrow and dt.kind != 'b':
+        Pex = carriers_exact(m, opt)
+        D = _lcm_den(Pex)
+        for k, fld in enumerate(fields):
+            if fld['kind'] != 'affine' or D >= 2 ** 40:
+                continue
+            ks = [int(round(x)) for x in fld['a']]
+            if not any(ks):
+                ks = [1, -2, 3]
+            v = [sum(D * kk * x for kk, x in zip(ks, p)) for p in Pex]            # exact integers
+            lo, hi = min(v), max(v)
+            b = -lo if dt.kind == 'u' else -((lo + hi) // 2)
+            if max(abs(lo + b), abs(hi + b)) < 2 ** 52:
+                fields[k] = {'kind': 'affine', 'a': [float(D * kk) for kk in ks], 'b': float(b), 'integer_valued': True}
+                values[:, k] = [float(x + b) for x in v]
+    arr = _cast(values, dt)
+    pristine = arr.astype(np.float64)
+    for k, fld in enumerate(fields):
+        same = np.array_equal(pristine[:, k], values[:, k])
+        if fld['kind'] == 'const':
+            fields[k] = {'kind': 'const', 'c': float(pristine[0, k])}
+        elif fld['kind'] == 'affine' and not same:
+            fields[k] = {'kind': 'random', 'was': 'affine field not representable in ' + spec['dtype']}
+    lay = spec['layout']
+    n, k = arr.shape
+    rng = np.random.default_rng(n * 31 + k)
+    if spec['shape'] == '1d':
+        arr = arr[:, 0]
+    owner = None
+    if lay == 'F':
+        arr = np.asfortranarray(arr)
+    elif lay == 'T' and arr.ndim == 2:
+        owner = np.ascontiguousarray(arr.T)
+        arr = owner.T
+    elif lay == 'cols' and arr.ndim == 2:
+        owner = _cast(rng.normal(size=(n, 2 * k)) * 50, dt)
+        owner[:, ::2] = arr
+        arr = owner[:, ::2]
+    elif lay in ('rows', 'cols'):
+        owner = _cast(rng.normal(size=(2 * n,) + arr.shape[1:]) * 50, dt)
+        owner[::2] = arr
+        arr = owner[::2]
+    elif lay == 'reversed':
+        owner = arr[::-1].copy()
+        arr = owner[::-1]
+    else:
+        arr = arr.copy()
+    if lay == 'readonly':
+        arr.flags.writeable = False
+    owner = arr if owner is None else owner
+    return fields, pristine, arr, (owner, owner.tobytes(), arr.dtype, arr.shape, arr.strides)
+
+
 # ------------------------------------------------------------------ oracle (real API only)
 
 def _evaluate(ctx, m, opt, fields, fd=None, settle=False, origin=None):
@@ -494,18 +725,20 @@ def _evaluate(ctx, m, opt, fields, fd=None, settle=False, origin=None):
     `origin` (stream translated): the same mesh before the translation; the operator of `m` must equal the operator of
     `origin` (gradients are translation invariant) within the conditioning of the problem."""
     fails, out = [], {}
-    fd = fd or fresh(m)
+    fd = fd or fresh(m, opt.get('storage'))
     span, adj = spanning_flags(fd, m, opt)
     P_all, sel = carriers(m, opt)        # rows the convenience function takes data for; which of them are graph vertices
     P = P_all[sel]
     n_all, nv = len(P_all), int(sel.sum())
-    pristine = field_matrix(m, opt, fields, P_all)
-    data = pristine.copy()
+    # the field as the array the caller hands in (dtype / layout / shape: opt['data_as']); `pristine` = the field it holds
+    fields, pristine, data, guard = present(m, opt, fields, field_matrix(m, opt, fields, P_all))
+    out['fields'] = fields
     nf = len(fields)
     conv = None
+    notes = {}
     try:
         if opt.get('conv_first'):
-            conv = conv_call(fd, opt, data, nv)
+            conv = conv_any(fd, opt, data, nv, notes)
         g, W, n = real_matrices(fd, opt, nv)
     except Exception as e:
         if semantic_normals(opt):      # the normals option is outside the quantifier: an exception there is not a failure
@@ -544,8 +777,15 @@ def _evaluate(ctx, m, opt, fields, fd=None, settle=False, origin=None):
         gc = matrices_call(fd, opt, nv)
         info['first_call_differs_from_next'] = not np.array_equal(G, dense3(gc), equal_nan=True)
     if conv is None:
-        conv = conv_call(fd, opt, data, nv)
-    if not np.array_equal(data, pristine, equal_nan=True):
+        conv = conv_any(fd, opt, data, nv, notes)
+    info.update(notes)
+    if guard is not None:
+        info['data_as'] = {'dtype': str(data.dtype), 'shape': list(data.shape), 'c_contiguous': bool(data.flags.c_contiguous),
+                           'f_contiguous': bool(data.flags.f_contiguous), 'writeable': bool(data.flags.writeable),
+                           'columns': [f['kind'] + ('(integer-valued)' if f.get('integer_valued') else '') for f in fields]}
+    held = data.astype(np.float64).reshape(pristine.shape)
+    if not np.array_equal(held, pristine, equal_nan=True) or (guard is not None and (
+            guard[0].tobytes() != guard[1] or (data.dtype, data.shape, data.strides) != guard[2:])):
         fails.append((f'argument-modified:{opt["mode"]}', 'the convenience function changed the data array it was given', {}))
     byhand = np.stack([x.dot(pristine[sel]) for x in g], axis=1)            # (n, 3, columns), first-call matrices
     byhand_c = byhand if gc is g else np.stack([x.dot(pristine[sel]) for x in gc], axis=1)
@@ -780,6 +1020,102 @@ def gen_mesh(ctx, kind, big):
             return m
 
 
+# --- graded meshes (round-4 class J): cell sizes differing by GRADE_RATIOS within ONE mesh.  "irregular and graded" is in
+# the property's quantifier; gen_geometric's meshes are uniform grids under one affine map (every cell the same size).
+GRADE_RATIOS = [3, 10, 30, 100, 300, 1000]
+AXIS_PATTERNS = ['down', 'up', 'vee', 'uniform', 'thin']
+
+
+def axis_widths(pattern, n, ratio):
+    """exact widths (multiples of 2^-16) of the n cells along one axis: geometric progression from 1 down to 1 / ratio
+    ('down'; 'up' = reversed), fine in the middle ('vee': boundary layer inside), all 1 ('uniform'), all 1 / ratio ('thin':
+    every cell anisotropic by `ratio`)"""
+    if pattern == 'vee' and n < 3:
+        pattern = 'down'
+    if n < 2 and pattern in ('down', 'up'):
+        pattern = 'thin'
+    if pattern == 'uniform':
+        w = [1.] * n
+    elif pattern == 'thin':
+        w = [1. / ratio] * n
+    elif pattern == 'vee':
+        w = [float(ratio) ** -(1 - abs(2 * k / (n - 1) - 1)) for k in range(n)]
+    else:
+        w = [float(ratio) ** -(k / (n - 1)) for k in range(n)]
+        if pattern == 'up':
+            w.reverse()
+    return [F(max(1, round(x * 65536)), 65536) for x in w]
+
+
+def gen_graded(rnd, kind, ratio, max_cells=3, max_vertices=64):
+    """conforming brick of hexahedra (kind 'hex') or of their Kuhn split into 6 tetrahedra each ('tet') whose cell widths
+    vary by `ratio` within the mesh: three times out of four graded along all three axes towards a corner / an inner layer
+    (cell VOLUMES then differ by ratio^3, moment-matrix determinants under volume weighting by ratio^9), otherwise every
+    axis draws its own pattern (at least one graded: anisotropic cells, thin layers); optional jitter of every node by up
+    to 1/8 of the smallest adjacent cell width along each axis, optional random rational affine map (sheared), arbitrary ids
+    and storage orders exactly as gen_geometric.  Coordinates are dyadic rationals (exact in binary64)."""
+    while True:
+        dims = [rnd.randint(2, max_cells) for _ in range(3)]
+        if kind == 'tet' and rnd.random() < .25:          # (a single layer of hexahedra has coplanar element centres)
+            dims[rnd.randrange(3)] = 1
+        nv = ((dims[0] + 1) * (dims[1] + 1) * (dims[2] + 1))
+        if nv <= max_vertices:
+            break
+    if rnd.random() < .75:
+        pats = [rnd.choice(['down', 'up', 'down', 'up', 'down', 'up', 'vee']) for _ in range(3)]
+    else:
+        while True:
+            pats = [rnd.choice(AXIS_PATTERNS) for _ in range(3)]
+            if any(p != 'uniform' for p in pats):
+                break
+    widths = [axis_widths(p, n, ratio) for p, n in zip(pats, dims)]
+    coord = [[sum(w[:k], F(0)) for k in range(len(w) + 1)] for w in widths]
+    local = [[min(w[max(k - 1, 0)], w[min(k, len(w) - 1)]) for k in range(len(w) + 1)] for w in widths]
+    nx, ny, nz = dims
+
+    def idx(x, y, z):
+        return x + (nx + 1) * (y + (ny + 1) * z)
+    jittered = rnd.random() < .6
+    grid = {}
+    for z in range(nz + 1):
+        for y in range(ny + 1):
+            for x in range(nx + 1):
+                g = (x, y, z)
+                grid[idx(x, y, z)] = tuple(coord[a][g[a]] + (F(rnd.randint(-2, 2), 16) * local[a][g[a]] if jittered else 0)
+                                           for a in range(3))
+    affine = rnd.random() < .5
+    if affine:
+        while True:
+            A = [[F(rnd.randint(-4, 4), rnd.choice([1, 2, 4])) for _ in range(3)] for _ in range(3)]
+            if MG.det3(*A) > 0:
+                break
+    else:
+        A = [[F(int(r == c)) for c in range(3)] for r in range(3)]
+    t = [F(rnd.randint(-8, 8), 2) for _ in range(3)]
+    pts = {k: tuple(sum(A[r][c] * q[c] for c in range(3)) + t[r] for r in range(3)) for k, q in grid.items()}
+    elems = []
+    for z in range(nz):
+        for y in range(ny):
+            for x in range(nx):
+                c = [idx(x, y, z), idx(x + 1, y, z), idx(x + 1, y + 1, z), idx(x, y + 1, z),
+                     idx(x, y, z + 1), idx(x + 1, y, z + 1), idx(x + 1, y + 1, z + 1), idx(x, y + 1, z + 1)]
+                elems += [('tet', [c[i] for i in tt]) for tt in MG.KUHN] if kind == 'tet' else [('hex', c)]
+    assert all(MG.signed(ty, [pts[n] for n in c]) > 0 for ty, c in elems)       # det A > 0, jitter <= 1/8 cell: never flips
+    used = sorted(pts)
+    id_list, id_style = MG.random_ids(rnd, len(used))
+    rnd.shuffle(id_list)
+    ids = dict(zip(used, id_list))
+    keys, order = MG.order_ids(rnd, used, ids)
+    eid_list, _ = MG.random_ids(rnd, len(elems), rnd.choice(['dense', 'sparse', 'large']))
+    rnd.shuffle(eid_list)
+    rows = [(e, [ids[n] for n in c]) for (_, c), e in zip(elems, eid_list)]
+    rnd.shuffle(rows)
+    sizes = [float(w) for a in range(3) for w in widths[a]]
+    return {'kind': kind, 'order': order, 'id_style': id_style, 'jittered': jittered, 'affine': affine, 'n_unref': 0,
+            'nodes': [(ids[k], pts[k]) for k in keys], 'blocks': {kind: rows},
+            'graded': {'ratio': ratio, 'axes': pats, 'cells': dims, 'largest / smallest cell width': max(sizes) / min(sizes)}}
+
+
 def gen_fields(rnd):
     def r(scale):
         return float(F(rnd.randint(-64 * scale, 64 * scale), 64))
@@ -797,7 +1133,7 @@ def gen_opts(ctx, combos):
     for mode, n_hop, kernel, moment in combos:
         yield {'mode': mode, 'n_hop': n_hop, 'kernel': kernel, 'moment': moment,
                'consider_volume': rnd.random() < .5, 'effective': rnd.random() < .6,
-               'alpha': rnd.choice(ALPHAS[:4]), 'fseed': rnd.randint(0, 10**6)}
+               'alpha': rnd.choice(ALPHAS[:4]), 'fseed': rnd.randint(0, 10**6), 'data_as': gen_data_as(rnd)}
 
 
 # absolute length scales of the stream `scaled` (cell size in coordinate units; the main stream has cell size ~1): the
@@ -884,9 +1220,9 @@ def translated(m, T, unit=F(1)):
 USER_NODAL, USER_ELEMENTAL = 'user_nodal_field', 'user_elemental_field'
 
 
-def live_object(m):
+def live_object(m, storage=None):
     """a freshly built object that carries user data (one nodal and one elemental variable)"""
-    fd = fresh(m)
+    fd = fresh(m, storage)
     rng = np.random.default_rng(len(m['nodes']))
     MG.quiet(fd.nodal_data.update_data, fd.nodes.ids, {USER_NODAL: rng.normal(size=(len(fd.nodes.ids), 2))})
     MG.quiet(fd.elemental_data.update_data, fd.elements.ids, {USER_ELEMENTAL: rng.normal(size=(len(fd.elements.ids), 1))})
@@ -911,7 +1247,7 @@ def change_one(rnd, m, opt):
     second_order = bool(opt.get('order1'))
     out = dict(opt)
     unit_alpha = opt.get('alpha_unit', opt['alpha'])         # alpha in units of the mesh's length scale (stream scaled)
-    keys = ['n_hop', 'kernel', 'moment', 'moment', 'consider_volume', 'consider_volume']
+    keys = ['n_hop', 'kernel', 'moment', 'moment', 'consider_volume', 'consider_volume', 'data_as']
     if opt['kernel'] is not None:
         keys += ['alpha', 'alpha']
     if not second_order:
@@ -934,6 +1270,8 @@ def change_one(rnd, m, opt):
         out[k] = not opt[k]
     elif k == 'o1kw':
         out['o1kw'] = not opt.get('o1kw', False)
+    elif k == 'data_as':          # the same call with the field handed in as another kind of array (dtype / layout / shape)
+        out['data_as'] = gen_data_as(rnd, 0. if not opt.get('data_as') else .2)
     elif k == 'mode':
         out['mode'] = 'elemental' if opt['mode'] == 'nodal' else 'nodal'
         out.pop('o1kw', None)
@@ -988,7 +1326,7 @@ def run_sequence(ctx, m, steps, fields, ref=None, count=True):
     the data array and the user data of the object compared with their snapshots.  Returns (index of the failing step or
     None, failures, info of the last evaluated step)"""
     ref = {} if ref is None else ref
-    live = live_object(m)
+    live = live_object(m, steps[0].get('storage') if steps else None)
     snap0 = user_snapshot(live)
     info = {}
     nf = len(fields)
@@ -1023,9 +1361,9 @@ def run_sequence(ctx, m, steps, fields, ref=None, count=True):
                 if count:
                     ctx.count('sequence:compared with a freshly built object')
             mo = r.get('model')
-            if mo is not None and mo['grads'].shape[0] == out['conv'].shape[0]:
+            if mo is not None and mo['grads'].shape[0] == out['conv'].shape[0] and mo['grads'].shape[2] <= out['conv'].shape[2]:
                 with np.errstate(all='ignore'):
-                    e = np.abs(out['conv'][:, :, :nf] - mo['grads']).max(axis=1)           # (n, f)
+                    e = np.abs(out['conv'][:, :, :mo['grads'].shape[2]] - mo['grads']).max(axis=1)           # (n, f)
                 bad = mo['ok_rows'][:, None] & ~(e <= mo['tol'])
                 if bad.any():
                     i, f = (int(x[0]) for x in np.where(bad))
@@ -1102,7 +1440,7 @@ def history_case(ctx, m, m2, opt0, opt, fields, record=True):
     return fails, info
 
 
-def one_case(ctx, m, opt, fields, origin=None):
+def one_case(ctx, m, opt, fields, origin=None, model=True):
     """one option combination on a freshly built object: oracle + correspondence with the model; returns what later calls on
     a live object are compared with"""
     desc = MG.describe(m)
@@ -1110,7 +1448,7 @@ def one_case(ctx, m, opt, fields, origin=None):
     if origin is not None:
         caseinfo['origin'] = MG.to_json(origin)
     short = {'mesh': desc, 'opt': opt}
-    fd = fresh(m)
+    fd = fresh(m, opt.get('storage'))
     fails, info, out = _evaluate(ctx, m, opt, fields, fd=fd, origin=origin)
     nontrivial = info.get('n', 0) >= 4
     if opt.get('order1'):
@@ -1129,7 +1467,21 @@ def one_case(ctx, m, opt, fields, origin=None):
     ctx.count(f'moment:{opt["moment"]}')
     ctx.count(f'consider_volume:{opt["consider_volume"]}')
     ctx.count('length scale (cell size in coordinate units):' + opt.get('scale', '1'))
-    ctx.count('geometry:' + ('jittered' if m.get('jittered') else 'affine' if m.get('affine') else 'grid'))
+    ctx.count('geometry:' + ('graded+' if m.get('graded') else '') + ('jittered' if m.get('jittered') else 'affine' if m.get('affine') else 'grid'))
+    if m.get('graded'):
+        short['graded'] = m['graded']
+        ctx.count(f'graded:cases:moment={opt["moment"]}:consider_volume={opt["consider_volume"]}')
+    st = opt.get('storage')
+    ctx.count('mesh storage:' + (f'ids {st["ids"]}, connectivity {st["connectivity"]}, coordinates {st["coordinates"]} {st["layout"]}'
+                                 if st else 'int64 ids, binary64 C-ordered coordinates (default)'))
+    da = opt.get('data_as')
+    ctx.count('data array:dtype:' + (da['dtype'] if da else 'float64 (default)'))
+    ctx.count('data array:layout:' + (da['layout'] if da else 'C (default)'))
+    ctx.count('data array:shape:' + ({'nk': '(n, k)', 'n1': '(n, 1)', '1d': '(n,)'}[da['shape']] if da else '(n, k) (default)'))
+    if info.get('one_dimensional_data_raised'):
+        ctx.count('stream:1-D data array raised ' + info['one_dimensional_data_raised'] + ' (observation only; handed in as (n, 1))')
+    for c in (info.get('data_as') or {}).get('columns', []):
+        ctx.count('data array:non-default dtype, column:' + c)
     w = info.get('max_error_in_units_of_eps_cond_rowsum_scale')
     if w is not None:
         ctx.extra['calibration_max_error_over_eps_cond_rowsum_scale'] = max(
@@ -1145,22 +1497,34 @@ def one_case(ctx, m, opt, fields, origin=None):
     for sig, what, obs in fails:
         ctx.fail(sig, what, caseinfo, obs)
     ref = {'conv': out.get('conv'), 'G': out.get('G'), 'fresh_fails': bool(fails)}
-    if ctx.quick and len(out.get('W', ())) > MODEL_MAX_PAIRS:
-        # exact rational arithmetic on (nearly) complete graphs of > 100 vertices takes the driver 5 .. 20 s per case
-        ctx.count('stream:model skipped in the quick tier (more than 6000 neighbour pairs; oracle only)')
+    if not model:
+        ctx.count('stream:oracle only (further option combinations on graded meshes)')
+    elif ctx.quick and len(out.get('W', ())) > (MODEL_MAX_PAIRS_GRADED if m.get('graded') else MODEL_MAX_PAIRS_TRANSLATED
+                                                if origin is not None else MODEL_MAX_PAIRS):
+        # exact rational arithmetic on (nearly) complete graphs of > 100 vertices takes the driver 5 .. 20 s per case (graded
+        # and translated meshes: weights, distances and offsets of very different magnitude make the rationals long, 1 - 2 ms
+        # per neighbour pair; both are oracle streams - the exact model is blind to what they look for, see PARTIAL)
+        ctx.count('stream:model skipped in the quick tier (more than ' + (
+            f'{MODEL_MAX_PAIRS_GRADED} neighbour pairs on a graded mesh' if m.get('graded') else
+            f'{MODEL_MAX_PAIRS_TRANSLATED} neighbour pairs on a translated mesh' if origin is not None else
+            f'{MODEL_MAX_PAIRS} neighbour pairs') + '; oracle only)')
     elif ctx.driver is not None and not info.get('singular') and 'conv' in out:
-        ref['model'] = correspond(ctx, m, opt, fd, fields, short if not fails else caseinfo, pre=out)
+        ref['model'] = correspond(ctx, m, opt, fd, out.get('fields', fields), short if not fails else caseinfo, pre=out)
     return ref
 
 
-def mesh_cases(ctx, m, opts, fields, n_extra, stream, origin=None):
+def mesh_cases(ctx, m, opts, fields, n_extra, stream, origin=None, oracle_only=()):
     """all option combinations drawn for one mesh: first each on its own freshly built object (oracle, model), then all of
-    them - with value-only changes and repeats in between - one after another on ONE live object"""
+    them - with value-only changes and repeats in between - one after another on ONE live object.  `oracle_only`: further
+    option combinations evaluated on their own freshly built object by the oracle alone (no model, not in the sequence)"""
     fseed = ctx.rng.randint(0, 10**6)
     ref = {}
     for opt in opts:
         opt['fseed'] = fseed          # the same data for every call on this mesh, so that results are comparable
         ref[semkey(opt)] = one_case(ctx, m, opt, fields, origin=origin)
+    for opt in oracle_only:
+        opt['fseed'] = fseed
+        one_case(ctx, m, opt, fields, origin=origin, model=False)
     sequence_case(ctx, m, opts, fields, ref, n_extra, stream)
 
 
@@ -1170,16 +1534,42 @@ def run(ctx):
     reps = ctx.n(3, 12)
     per_mesh = 4
     n_meshes = 0
+    ratios = GRADE_RATIOS[:]
+    rnd.shuffle(ratios)
+    n_graded = 0
     for rep in range(reps):
         rnd.shuffle(combos)
-        # one mesh per 4 option combinations, kinds alternate
+        # one mesh per 4 option combinations, kinds alternate; every second mesh is GRADED (cell widths differing by 3 .. 1000
+        # within the mesh, every ratio in every run), the others are uniform grids under one affine map as before
         for k in range(0, len(combos), per_mesh):
             opts = list(gen_opts(ctx, combos[k:k + per_mesh]))
             kind = ['tet', 'hex'][(k // per_mesh + rep) % 2]
             big = (not ctx.quick and rnd.random() < .4) or (kind == 'hex' and any(o['mode'] == 'elemental' for o in opts))
-            m = gen_mesh(ctx, kind, big)
+            if (k // per_mesh + rep // 2) % 2 == 1:
+                ratio = ratios[n_graded % len(ratios)]
+                n_graded += 1
+                m = gen_graded(rnd, kind, ratio, 3 if ctx.quick or rnd.random() < .6 else 4,
+                               ((36 if kind == 'tet' else 48) if ctx.quick else 125))
+                # on a graded mesh additionally the moment-corrected operator of both modes with volume weighting (weights
+                # then differ by ratio^3 between the coarse and the fine region), short hop counts favoured (more hops
+                # reach the coarse cells from everywhere on meshes of this size)
+                more = []
+                for mode, n_hop in [('nodal', 1), ('elemental', 1), ('nodal', rnd.choice([2, 3])), ('elemental', rnd.choice([2, 3]))]:
+                    o = next(gen_opts(ctx, [(mode, n_hop, rnd.choice(KERNELS), True)]))
+                    o['consider_volume'] = True
+                    if semkey(o) not in {semkey(x) for x in opts + more}:
+                        (opts if n_hop == 1 else more).append(o)
+                ctx.count(f'graded:largest / smallest cell width ~{ratio}')
+                ctx.count('graded:axes:' + ','.join(sorted(m['graded']['axes'])))
+                ctx.count(f'graded:{kind}')
+            else:
+                m = gen_mesh(ctx, kind, big)
+                more = []
             n_meshes += 1
-            mesh_cases(ctx, m, opts, gen_fields(rnd), ctx.n(6, 8), 'main')
+            st = gen_storage(rnd, m)
+            for o in opts + more:
+                o['storage'] = st
+            mesh_cases(ctx, m, opts, gen_fields(rnd), ctx.n(4, 6) if m.get('graded') else ctx.n(6, 8), 'main', oracle_only=more)
     # stream order1: second-order meshes differentiated on their first-order vertices (order1_only=True); drawn after
     # the main stream so that the main stream's cases do not depend on it
     o1 = list(itertools.product([1, 2, 3], KERNELS, [True, True, False]))        # 27, moment-corrected twice as often
@@ -1195,7 +1585,7 @@ def run(ctx):
             # tet2: effective-volume weighting or none (see the probe below); hex2: femio has no hex2 volume
             opts = [{'mode': 'nodal', 'n_hop': n_hop, 'kernel': kernel, 'moment': moment, 'order1': True,
                      'consider_volume': m['kind'] == 'tet2' and rnd.random() < .5, 'effective': True,
-                     'alpha': rnd.choice(ALPHAS[:4])} for n_hop, kernel, moment in sel[k:k + 3]]
+                     'alpha': rnd.choice(ALPHAS[:4]), 'data_as': gen_data_as(rnd)} for n_hop, kernel, moment in sel[k:k + 3]]
             mesh_cases(ctx, m, opts, gen_fields(rnd), ctx.n(3, 4), 'order1')
     # stream scaled: the same kind of meshes in other length units (cell size 1/1024, 500, 2000 coordinate units; the
     # kernel parameter scaled along so that the problem is similar); inside the quantifier (the property is scale free),
